@@ -40,15 +40,16 @@ type rlEvent struct {
 }
 
 type rlScn struct {
-	N       int       `json:"n"`
-	Echo    bool      `json:"echo"`
-	Pol     []string  `json:"pol"`
-	H       []rlEvent `json:"h"`
-	Outcome []string  `json:"outcome"`
-	Version string    `json:"version"`
-	Notifs  int       `json:"notifs"`
-	Pre     bool      `json:"pre"`
-	Burst   bool      `json:"burst"` // consecutive reads of the behaviour are handed over together: no idle iteration of the loop in between
+	N         int       `json:"n"`
+	Echo      bool      `json:"echo"`
+	Pol       []string  `json:"pol"`
+	H         []rlEvent `json:"h"`
+	Outcome   []string  `json:"outcome"`
+	Version   string    `json:"version"`
+	Notifs    int       `json:"notifs"`
+	Pre       bool      `json:"pre"`
+	SplitEcho bool      `json:"splitecho"`
+	Burst     bool      `json:"burst"` // consecutive reads of the behaviour are handed over together: no idle iteration of the loop in between
 }
 
 type rlTransport struct {
@@ -264,6 +265,14 @@ func c08rlOne(s *rlScn, idx int) verdict {
 				cut := bytes.Index(w, []byte("</rpc>")) + len("</rpc>")
 				tokens[rlTok{"rpc", i}] = w[:cut]
 				tokens[rlTok{"eend", i}] = w[cut:]
+
+				if s.SplitEcho {
+					// the head of the echo (through the rpc start tag, which carries the message-id) as a token of its own
+					k := bytes.Index(w, []byte(`message-id="`))
+					k += bytes.IndexByte(w[k:], '>') + 1
+					tokens[rlTok{"rpch", i}] = w[:k]
+					tokens[rlTok{"rpc", i}] = w[k:cut]
+				}
 				msg(i)
 
 				return nil
@@ -324,7 +333,7 @@ func c08rlOne(s *rlScn, idx int) verdict {
 			return v
 		}
 
-		if e.A != "read" && e.A != "reply" && e.A != "notify" {
+		if e.A != "read" && e.A != "reply" && e.A != "notify" && e.A != "echorest" {
 			if err = flush(); err != nil {
 				return tool("%v", err)
 			}
@@ -340,7 +349,7 @@ func c08rlOne(s *rlScn, idx int) verdict {
 			if err = send(e.I, to); err != nil {
 				return tool("%v", err)
 			}
-		case "reply", "notify":
+		case "reply", "notify", "echorest":
 		case "read":
 			if len(e.Toks) == 0 {
 				if err = flush(); err == nil {
@@ -413,7 +422,7 @@ func c08rlOne(s *rlScn, idx int) verdict {
 	}
 
 	if s.Echo {
-		if err = tr.release(append(append([]byte(nil), tokens[rlTok{"rpc", p}]...), tokens[rlTok{"eend", p}]...)); err != nil {
+		if err = tr.release(append(append(append([]byte(nil), tokens[rlTok{"rpch", p}]...), tokens[rlTok{"rpc", p}]...), tokens[rlTok{"eend", p}]...)); err != nil {
 			return tool("%v", err)
 		}
 	}
